@@ -82,6 +82,12 @@ type State struct {
 	cells map[*Cell]Val
 	heap  map[string]*Term
 	epoch string
+	lazy  *lazyMerge // how to resolve heaps not materialised when states with different epochs were merged
+}
+
+type lazyMerge struct {
+	conds   []*Term
+	parents []*State
 }
 
 func newState() *State {
@@ -89,7 +95,7 @@ func newState() *State {
 }
 
 func (s *State) clone() *State {
-	n := &State{pc: s.pc, cells: make(map[*Cell]Val, len(s.cells)), heap: make(map[string]*Term, len(s.heap)), epoch: s.epoch}
+	n := &State{pc: s.pc, cells: make(map[*Cell]Val, len(s.cells)), heap: make(map[string]*Term, len(s.heap)), epoch: s.epoch, lazy: s.lazy}
 	for k, v := range s.cells {
 		n.cells[k] = v
 	}
@@ -110,7 +116,16 @@ func (s *State) H(name string, so *Sort) *Term {
 		heapSorts[name] = so
 		heapNames = append(heapNames, name)
 	}
-	t := mkVar(name+"@"+s.epoch, so)
+	var t *Term
+	if s.lazy != nil {
+		// resolve through the states this one was merged from
+		t = s.lazy.parents[0].H(name, so)
+		for i := 1; i < len(s.lazy.parents); i++ {
+			t = mkIte(s.lazy.conds[i], s.lazy.parents[i].H(name, so), t)
+		}
+	} else {
+		t = mkVar(name+"@"+s.epoch, so)
+	}
 	s.heap[name] = t
 	return t
 }
@@ -136,11 +151,30 @@ func newEpoch() string {
 }
 
 // havocAll forgets everything about the heap (sound over-approximation).
-func (s *State) havocAll() {
-	alloc := s.H("$alloc", sortInt)
-	s.heap = map[string]*Term{}
+func (s *State) havocAll() { s.havocExcept(nil) }
+
+// havocExcept forgets every heap except those for which keep returns true.
+func (s *State) havocExcept(keep func(name string) bool) {
+	kept := map[string]*Term{}
+	if keep != nil {
+		for _, n := range heapNames {
+			if keep(n) {
+				kept[n] = s.H(n, heapSorts[n])
+			}
+		}
+	}
+	s.heap = kept
 	s.epoch = newEpoch()
-	_ = alloc
+	s.lazy = nil
+}
+
+func sameLazy(ins []*State) bool {
+	for _, s := range ins[1:] {
+		if s.lazy != ins[0].lazy {
+			return false
+		}
+	}
+	return true
 }
 
 // conjuncts of a pc
@@ -241,10 +275,13 @@ func (x *Exec) mergeStates(ins []*State) *State {
 			same = false
 		}
 	}
-	if same {
+	if same && sameLazy(ins) {
 		out.epoch = ins[0].epoch
+		out.lazy = ins[0].lazy
 	} else {
+		same = false
 		out.epoch = newEpoch()
+		out.lazy = &lazyMerge{conds: rem, parents: ins}
 	}
 	// heaps
 	names := map[string]bool{}
@@ -253,11 +290,7 @@ func (x *Exec) mergeStates(ins []*State) *State {
 			names[k] = true
 		}
 	}
-	if !same {
-		for _, n := range heapNames {
-			names[n] = true
-		}
-	}
+	_ = same
 	var nl []string
 	for k := range names {
 		nl = append(nl, k)
